@@ -1,4 +1,1070 @@
-pub fn run(_args: &[String]) -> i32 {
-    eprintln!("frames: not built yet");
-    2
+//! C02 / C05: executes frame-stream histories printed by spec/Framing.tla against the real
+//! writers and readers of wow_world_messages (and the real wow_srp header cipher halves).
+//!
+//! `vh frames replay [--keys hex,hex,..] [--flavours sync,tokio,astd]`
+//!     stdin : REPLAY records of spec/Framing.tla (kind "frames"): per frame the expected header
+//!             bytes, total length, stream offset and the keystream range that is encrypted; per
+//!             read the expected reader position; final keystream positions.
+//!     stdout: `@n` progress markers, one verdict line per disagreement, a summary line.
+//! `vh frames drive`
+//!     stdin : requests {"kind":"drive","exp","crypt","entry","flavour","key":hex,
+//!                       "ops":[{"op":"w","dir","name","body"},{"op":"r","dir"}]}
+//!     stdout: one line per request with the OBSERVED events (validated by spec/TraceFraming.tla).
+//!
+//! No expectation is computed here: the module builds a pool message of the requested body
+//! length, calls the public API and reports bytes, lengths, reader positions and whether a cipher
+//! half is in the same state as a reference half that was fed exactly the observed header bytes.
+//! A panic of the code under test is a verdict.
+#![allow(clippy::type_complexity)]
+
+use crate::util::{guarded, install_quiet_panic_hook};
+use serde_json::{json, Value};
+use std::future::Future;
+use std::io::{BufRead, Write};
+use std::task::{Context, Poll, Waker};
+
+#[derive(Clone, Copy, PartialEq, Debug)]
+pub enum Fl {
+    Sync,
+    Tokio,
+    Astd,
+}
+
+impl Fl {
+    fn parse(s: &str) -> Option<Fl> {
+        match s {
+            "sync" => Some(Fl::Sync),
+            "tokio" => Some(Fl::Tokio),
+            "astd" => Some(Fl::Astd),
+            _ => None,
+        }
+    }
+    fn name(self) -> &'static str {
+        match self {
+            Fl::Sync => "sync",
+            Fl::Tokio => "tokio",
+            Fl::Astd => "astd",
+        }
+    }
+}
+
+#[derive(Clone, Copy, PartialEq, Debug)]
+pub enum Entry {
+    Opcode,
+    Expect,
+    ExpectOther,
+}
+
+impl Entry {
+    fn parse(s: &str) -> Option<Entry> {
+        match s {
+            "opcode" => Some(Entry::Opcode),
+            "expect" => Some(Entry::Expect),
+            "expect_other" => Some(Entry::ExpectOther),
+            _ => None,
+        }
+    }
+    fn name(self) -> &'static str {
+        match self {
+            Entry::Opcode => "opcode",
+            Entry::Expect => "expect",
+            Entry::ExpectOther => "expect_other",
+        }
+    }
+}
+
+/// In-memory readers and writers never return Pending; a trivial executor is enough.
+pub fn block_on<F: Future>(f: F) -> F::Output {
+    let mut f = std::pin::pin!(f);
+    let mut cx = Context::from_waker(Waker::noop());
+    for _ in 0..1_000_000 {
+        if let Poll::Ready(v) = f.as_mut().poll(&mut cx) {
+            return v;
+        }
+    }
+    panic!("harness: in-memory future stayed pending");
+}
+
+/// What a reader returned, compared with the message that was written.
+#[derive(Debug)]
+pub enum Got {
+    Same,
+    Differs(String),
+    OpcodeErr(u32),
+    Err(String),
+}
+
+/// One pool message, with the writer's cipher half type `E` and the reader's `D`.
+pub trait Ops<E, D> {
+    fn name(&self) -> &'static str;
+    fn body(&self) -> &[u8];
+    fn declared(&self) -> u64;
+    fn write(&self, fl: Fl, via_enum: bool, out: &mut Vec<u8>, enc: Option<&mut E>) -> Result<(), String>;
+    fn read(&self, fl: Fl, entry: Entry, r: &mut &[u8], dec: Option<&mut D>) -> Got;
+}
+
+macro_rules! side {
+    ($modname:ident, $exp:ident, $msg_trait:ident, $opc:ident, $E:ty, $D:ty, $size:ident,
+     $w_u:ident, $w_e:ident, $tw_u:ident, $tw_e:ident, $aw_u:ident, $aw_e:ident,
+     $x_u:ident, $x_e:ident, $tx_u:ident, $tx_e:ident, $ax_u:ident, $ax_e:ident,
+     $other:ident) => {
+        pub mod $modname {
+            use super::{block_on, Entry, Fl, Got, Ops};
+            use wow_world_messages::errors::ExpectedOpcodeError;
+            use wow_world_messages::$exp::opcodes::$opc as Opc;
+            use wow_world_messages::$exp::$msg_trait as MsgTrait;
+            use wow_world_messages::$exp::$other as Other;
+            use wow_world_messages::$exp::{$ax_e, $ax_u, $tx_e, $tx_u, $x_e, $x_u};
+
+            pub struct T<M> {
+                pub m: M,
+                pub body: Vec<u8>,
+                pub name: &'static str,
+                pub to_enum: fn(&M) -> Opc,
+            }
+
+            fn classify(e: ExpectedOpcodeError) -> Got {
+                match e {
+                    ExpectedOpcodeError::Opcode { opcode, .. } => Got::OpcodeErr(opcode),
+                    other => Got::Err(format!("{other:?}")),
+                }
+            }
+
+            impl<M> Ops<$E, $D> for T<M>
+            where
+                M: MsgTrait + Clone + PartialEq + Send + Sync,
+            {
+                fn name(&self) -> &'static str {
+                    self.name
+                }
+                fn body(&self) -> &[u8] {
+                    &self.body
+                }
+                fn declared(&self) -> u64 {
+                    self.m.$size() as u64
+                }
+                fn write(&self, fl: Fl, via_enum: bool, out: &mut Vec<u8>, enc: Option<&mut $E>) -> Result<(), String> {
+                    let r = if via_enum {
+                        let v = (self.to_enum)(&self.m);
+                        match (fl, enc) {
+                            (Fl::Sync, None) => v.$w_u(&mut *out),
+                            (Fl::Sync, Some(e)) => v.$w_e(&mut *out, e),
+                            (Fl::Tokio, None) => block_on(v.$tw_u(&mut *out)),
+                            (Fl::Tokio, Some(e)) => block_on(v.$tw_e(&mut *out, e)),
+                            (Fl::Astd, None) => block_on(v.$aw_u(&mut *out)),
+                            (Fl::Astd, Some(e)) => block_on(v.$aw_e(&mut *out, e)),
+                        }
+                    } else {
+                        match (fl, enc) {
+                            (Fl::Sync, None) => self.m.$w_u(&mut *out),
+                            (Fl::Sync, Some(e)) => self.m.$w_e(&mut *out, e),
+                            (Fl::Tokio, None) => block_on(self.m.$tw_u(&mut *out)),
+                            (Fl::Tokio, Some(e)) => block_on(self.m.$tw_e(&mut *out, e)),
+                            (Fl::Astd, None) => block_on(self.m.$aw_u(&mut *out)),
+                            (Fl::Astd, Some(e)) => block_on(self.m.$aw_e(&mut *out, e)),
+                        }
+                    };
+                    r.map_err(|e| format!("{e:?}"))
+                }
+                fn read(&self, fl: Fl, entry: Entry, r: &mut &[u8], dec: Option<&mut $D>) -> Got {
+                    match entry {
+                        Entry::Opcode => {
+                            let res = match (fl, dec) {
+                                (Fl::Sync, None) => Opc::read_unencrypted(&mut *r),
+                                (Fl::Sync, Some(d)) => Opc::read_encrypted(&mut *r, d),
+                                (Fl::Tokio, None) => block_on(Opc::tokio_read_unencrypted(&mut *r)),
+                                (Fl::Tokio, Some(d)) => block_on(Opc::tokio_read_encrypted(&mut *r, d)),
+                                (Fl::Astd, None) => block_on(Opc::astd_read_unencrypted(&mut *r)),
+                                (Fl::Astd, Some(d)) => block_on(Opc::astd_read_encrypted(&mut *r, d)),
+                            };
+                            match res {
+                                Ok(v) => {
+                                    if v == (self.to_enum)(&self.m) {
+                                        Got::Same
+                                    } else {
+                                        Got::Differs(v.to_string())
+                                    }
+                                }
+                                Err(e) => classify(e),
+                            }
+                        }
+                        Entry::Expect => {
+                            let res: Result<M, ExpectedOpcodeError> = match (fl, dec) {
+                                (Fl::Sync, None) => $x_u::<M, _>(r),
+                                (Fl::Sync, Some(d)) => $x_e::<M, _>(r, d),
+                                (Fl::Tokio, None) => block_on($tx_u::<M, _>(r)),
+                                (Fl::Tokio, Some(d)) => block_on($tx_e::<M, _>(r, d)),
+                                (Fl::Astd, None) => block_on($ax_u::<M, _>(r)),
+                                (Fl::Astd, Some(d)) => block_on($ax_e::<M, _>(r, d)),
+                            };
+                            match res {
+                                Ok(v) => {
+                                    if v == self.m {
+                                        Got::Same
+                                    } else {
+                                        Got::Differs("same type, different value".to_string())
+                                    }
+                                }
+                                Err(e) => classify(e),
+                            }
+                        }
+                        Entry::ExpectOther => {
+                            let res: Result<Other, ExpectedOpcodeError> = match (fl, dec) {
+                                (Fl::Sync, None) => $x_u::<Other, _>(r),
+                                (Fl::Sync, Some(d)) => $x_e::<Other, _>(r, d),
+                                (Fl::Tokio, None) => block_on($tx_u::<Other, _>(r)),
+                                (Fl::Tokio, Some(d)) => block_on($tx_e::<Other, _>(r, d)),
+                                (Fl::Astd, None) => block_on($ax_u::<Other, _>(r)),
+                                (Fl::Astd, Some(d)) => block_on($ax_e::<Other, _>(r, d)),
+                            };
+                            match res {
+                                Ok(_) => Got::Differs("decoded as an unrelated message type".to_string()),
+                                Err(e) => classify(e),
+                            }
+                        }
+                    }
+                }
+            }
+        }
+    };
+}
+
+macro_rules! server_side {
+    ($modname:ident, $exp:ident, $E:ty, $D:ty) => {
+        side!($modname, $exp, ServerMessage, ServerOpcodeMessage, $E, $D, server_size,
+              write_unencrypted_server, write_encrypted_server,
+              tokio_write_unencrypted_server, tokio_write_encrypted_server,
+              astd_write_unencrypted_server, astd_write_encrypted_server,
+              expect_server_message, expect_server_message_encryption,
+              tokio_expect_server_message, tokio_expect_server_message_encryption,
+              astd_expect_server_message, astd_expect_server_message_encryption,
+              SMSG_NOTIFICATION);
+    };
+}
+
+macro_rules! client_side {
+    ($modname:ident, $exp:ident, $E:ty, $D:ty) => {
+        side!($modname, $exp, ClientMessage, ClientOpcodeMessage, $E, $D, client_size,
+              write_unencrypted_client, write_encrypted_client,
+              tokio_write_unencrypted_client, tokio_write_encrypted_client,
+              astd_write_unencrypted_client, astd_write_encrypted_client,
+              expect_client_message, expect_client_message_encryption,
+              tokio_expect_client_message, tokio_expect_client_message_encryption,
+              astd_expect_client_message, astd_expect_client_message_encryption,
+              CMSG_PING);
+    };
+}
+
+server_side!(vanilla_s, vanilla, wow_srp::vanilla_header::EncrypterHalf, wow_srp::vanilla_header::DecrypterHalf);
+client_side!(vanilla_c, vanilla, wow_srp::vanilla_header::EncrypterHalf, wow_srp::vanilla_header::DecrypterHalf);
+server_side!(tbc_s, tbc, wow_srp::tbc_header::EncrypterHalf, wow_srp::tbc_header::DecrypterHalf);
+client_side!(tbc_c, tbc, wow_srp::tbc_header::EncrypterHalf, wow_srp::tbc_header::DecrypterHalf);
+server_side!(wrath_s, wrath, wow_srp::wrath_header::ServerEncrypterHalf, wow_srp::wrath_header::ClientDecrypterHalf);
+client_side!(wrath_c, wrath, wow_srp::wrath_header::ClientEncrypterHalf, wow_srp::wrath_header::ServerDecrypterHalf);
+
+// ------------------------------------------------------------------------------------------------
+// Pool messages of a requested body length (names fixed by tools/framing_pool.py).
+
+fn pattern(n: usize) -> Vec<u8> {
+    (0..n).map(|i| ((i * 31 + 7) & 0xFF) as u8).collect()
+}
+
+/// `u32 count` + `count` C strings, `n` bytes in total (n >= 4); strings of at most 255 bytes.
+fn motd(n: usize) -> (Vec<String>, Vec<u8>) {
+    let mut rest = n - 4;
+    let mut strs = Vec::new();
+    while rest > 0 {
+        let chunk = rest.min(256);
+        let s: String = (0..chunk - 1).map(|i| (b'a' + ((i + strs.len()) % 26) as u8) as char).collect();
+        strs.push(s);
+        rest -= chunk;
+    }
+    let mut body = (strs.len() as u32).to_le_bytes().to_vec();
+    for s in &strs {
+        body.extend_from_slice(s.as_bytes());
+        body.push(0);
+    }
+    (strs, body)
+}
+
+/// `n` pseudo-random guids: packed guids of random values do not compress, so the compressed body
+/// grows with `n` (about 9 bytes per guid).
+fn guids(n: usize) -> Vec<wow_world_messages::Guid> {
+    let mut x: u64 = 0x9E37_79B9_7F4A_7C15;
+    (0..n)
+        .map(|_| {
+            x ^= x << 13;
+            x ^= x >> 7;
+            x ^= x << 17;
+            wow_world_messages::Guid::new(x | 0x0101_0101_0101_0101)
+        })
+        .collect()
+}
+
+/// Body of a message whose length is not a function of its definition (compressed): what the
+/// message's own `write_into_vec` produces.
+fn body_of<M: wow_world_messages::Message>(m: &M) -> Vec<u8> {
+    let mut b = Vec::new();
+    let _ = m.write_into_vec(&mut b);
+    b
+}
+
+const GUID: u64 = 0x0123_4567_89AB_CDEF;
+const SEQ: u32 = 0xDEAD_BEEF;
+
+pub trait Exp {
+    type CE: Clone;
+    type CD: Clone;
+    type SE: Clone;
+    type SD: Clone;
+    fn halves(key: [u8; 40]) -> Result<(Self::CE, Self::CD, Self::SE, Self::SD), String>;
+    fn client_msg(name: &str, body: usize) -> Option<Box<dyn Ops<Self::CE, Self::SD>>>;
+    fn server_msg(name: &str, body: usize) -> Option<Box<dyn Ops<Self::SE, Self::CD>>>;
+    fn raw_ce(h: &mut Self::CE, d: &mut [u8]);
+    fn raw_cd(h: &mut Self::CD, d: &mut [u8]);
+    fn raw_se(h: &mut Self::SE, d: &mut [u8]);
+    fn raw_sd(h: &mut Self::SD, d: &mut [u8]);
+}
+
+macro_rules! exp_impl {
+    ($ty:ident, $exp:ident, $srp:ident, $cmod:ident, $smod:ident, $CE:ty, $CD:ty, $SE:ty, $SD:ty, $motd:expr) => {
+        pub struct $ty;
+        impl Exp for $ty {
+            type CE = $CE;
+            type CD = $CD;
+            type SE = $SE;
+            type SD = $SD;
+
+            fn halves(key: [u8; 40]) -> Result<(Self::CE, Self::CD, Self::SE, Self::SD), String> {
+                use wow_srp::normalized_string::NormalizedString;
+                use wow_srp::$srp::ProofSeed;
+                let user = NormalizedString::new("VERIF").map_err(|e| format!("{e:?}"))?;
+                let server_seed = ProofSeed::new();
+                let client_seed = ProofSeed::new();
+                let (ss, cs) = (server_seed.seed(), client_seed.seed());
+                let (proof, client) = client_seed.into_client_header_crypto(&user, key, ss);
+                let server = server_seed
+                    .into_server_header_crypto(&user, key, proof, cs)
+                    .map_err(|e| format!("{e:?}"))?;
+                let (ce, cd) = client.split();
+                let (se, sd) = server.split();
+                Ok((ce, cd, se, sd))
+            }
+
+            fn client_msg(name: &str, body: usize) -> Option<Box<dyn Ops<Self::CE, Self::SD>>> {
+                use wow_world_messages::$exp::opcodes::ClientOpcodeMessage as Opc;
+                use wow_world_messages::$exp::{CMSG_CHAR_ENUM, CMSG_PLAYER_LOGIN, CMSG_WARDEN_DATA};
+                Some(match name {
+                    "CMSG_CHAR_ENUM" if body == 0 => Box::new($cmod::T { m: CMSG_CHAR_ENUM {}, body: vec![], name: "CMSG_CHAR_ENUM", to_enum: |_| Opc::CMSG_CHAR_ENUM }),
+                    "CMSG_PLAYER_LOGIN" if body == 8 => Box::new($cmod::T {
+                        m: CMSG_PLAYER_LOGIN { guid: wow_world_messages::Guid::new(GUID) },
+                        body: GUID.to_le_bytes().to_vec(),
+                        name: "CMSG_PLAYER_LOGIN",
+                        to_enum: |m| Opc::from(m.clone()),
+                    }),
+                    "CMSG_WARDEN_DATA" => {
+                        let b = pattern(body);
+                        Box::new($cmod::T { m: CMSG_WARDEN_DATA { encrypted_data: b.clone() }, body: b, name: "CMSG_WARDEN_DATA", to_enum: |m| Opc::from(m.clone()) })
+                    }
+                    _ => return None,
+                })
+            }
+
+            fn server_msg(name: &str, body: usize) -> Option<Box<dyn Ops<Self::SE, Self::CD>>> {
+                use wow_world_messages::$exp::opcodes::ServerOpcodeMessage as Opc;
+                use wow_world_messages::$exp::{SMSG_LOGOUT_COMPLETE, SMSG_PONG, SMSG_WARDEN_DATA};
+                Some(match name {
+                    "SMSG_LOGOUT_COMPLETE" if body == 0 => Box::new($smod::T { m: SMSG_LOGOUT_COMPLETE {}, body: vec![], name: "SMSG_LOGOUT_COMPLETE", to_enum: |_| Opc::SMSG_LOGOUT_COMPLETE }),
+                    "SMSG_PONG" if body == 4 => Box::new($smod::T { m: SMSG_PONG { sequence_id: SEQ }, body: SEQ.to_le_bytes().to_vec(), name: "SMSG_PONG", to_enum: |m| Opc::from(m.clone()) }),
+                    "SMSG_WARDEN_DATA" => {
+                        let b = pattern(body);
+                        Box::new($smod::T { m: SMSG_WARDEN_DATA { encrypted_data: b.clone() }, body: b, name: "SMSG_WARDEN_DATA", to_enum: |m| Opc::from(m.clone()) })
+                    }
+                    _ => {
+                        let extra: fn(&str, usize) -> Option<Box<dyn Ops<Self::SE, Self::CD>>> = $motd;
+                        return extra(name, body);
+                    }
+                })
+            }
+
+            fn raw_ce(h: &mut Self::CE, d: &mut [u8]) {
+                h.encrypt(d)
+            }
+            fn raw_cd(h: &mut Self::CD, d: &mut [u8]) {
+                h.decrypt(d)
+            }
+            fn raw_se(h: &mut Self::SE, d: &mut [u8]) {
+                h.encrypt(d)
+            }
+            fn raw_sd(h: &mut Self::SD, d: &mut [u8]) {
+                h.decrypt(d)
+            }
+        }
+    };
+}
+
+exp_impl!(Vanilla, vanilla, vanilla_header, vanilla_c, vanilla_s,
+          wow_srp::vanilla_header::EncrypterHalf, wow_srp::vanilla_header::DecrypterHalf,
+          wow_srp::vanilla_header::EncrypterHalf, wow_srp::vanilla_header::DecrypterHalf,
+          |name, body| {
+              if name != "SMSG_COMPRESSED_UPDATE_OBJECT" {
+                  return None;
+              }
+              use wow_world_messages::vanilla::{Object, SMSG_COMPRESSED_UPDATE_OBJECT};
+              let m = SMSG_COMPRESSED_UPDATE_OBJECT { has_transport: 0, objects: vec![Object::OutOfRangeObjects { guids: guids(body) }] };
+              let b = body_of(&m);
+              Some(Box::new(vanilla_s::T {
+                  m,
+                  body: b,
+                  name: "SMSG_COMPRESSED_UPDATE_OBJECT",
+                  to_enum: |m| wow_world_messages::vanilla::opcodes::ServerOpcodeMessage::from(m.clone()),
+              }))
+          });
+exp_impl!(Tbc, tbc, tbc_header, tbc_c, tbc_s,
+          wow_srp::tbc_header::EncrypterHalf, wow_srp::tbc_header::DecrypterHalf,
+          wow_srp::tbc_header::EncrypterHalf, wow_srp::tbc_header::DecrypterHalf,
+          |name, body| {
+              if name == "SMSG_COMPRESSED_UPDATE_OBJECT" {
+                  use wow_world_messages::tbc::{Object, SMSG_COMPRESSED_UPDATE_OBJECT};
+                  let m = SMSG_COMPRESSED_UPDATE_OBJECT { has_transport: 0, objects: vec![Object::OutOfRangeObjects { guids: guids(body) }] };
+                  let b = body_of(&m);
+                  return Some(Box::new(tbc_s::T {
+                      m,
+                      body: b,
+                      name: "SMSG_COMPRESSED_UPDATE_OBJECT",
+                      to_enum: |m| wow_world_messages::tbc::opcodes::ServerOpcodeMessage::from(m.clone()),
+                  }));
+              }
+              if name != "SMSG_MOTD" || body < 4 {
+                  return None;
+              }
+              let (s, b) = motd(body);
+              Some(Box::new(tbc_s::T {
+                  m: wow_world_messages::tbc::SMSG_MOTD { motds: s },
+                  body: b,
+                  name: "SMSG_MOTD",
+                  to_enum: |m| wow_world_messages::tbc::opcodes::ServerOpcodeMessage::from(m.clone()),
+              }))
+          });
+exp_impl!(Wrath, wrath, wrath_header, wrath_c, wrath_s,
+          wow_srp::wrath_header::ClientEncrypterHalf, wow_srp::wrath_header::ClientDecrypterHalf,
+          wow_srp::wrath_header::ServerEncrypterHalf, wow_srp::wrath_header::ServerDecrypterHalf,
+          |name, body| {
+              if name == "SMSG_COMPRESSED_UPDATE_OBJECT" {
+                  use wow_world_messages::wrath::{Object, SMSG_COMPRESSED_UPDATE_OBJECT};
+                  let m = SMSG_COMPRESSED_UPDATE_OBJECT { objects: vec![Object::OutOfRangeObjects { guids: guids(body) }] };
+                  let b = body_of(&m);
+                  return Some(Box::new(wrath_s::T {
+                      m,
+                      body: b,
+                      name: "SMSG_COMPRESSED_UPDATE_OBJECT",
+                      to_enum: |m| wow_world_messages::wrath::opcodes::ServerOpcodeMessage::from(m.clone()),
+                  }));
+              }
+              if name != "SMSG_MOTD" || body < 4 {
+                  return None;
+              }
+              let (s, b) = motd(body);
+              Some(Box::new(wrath_s::T {
+                  m: wow_world_messages::wrath::SMSG_MOTD { motds: s },
+                  body: b,
+                  name: "SMSG_MOTD",
+                  to_enum: |m| wow_world_messages::wrath::opcodes::ServerOpcodeMessage::from(m.clone()),
+              }))
+          });
+
+// ------------------------------------------------------------------------------------------------
+// One direction of a connection: the bytes on the wire (plain and, in parallel, encrypted), the
+// real cipher halves and reference halves that are fed exactly the observed header bytes.
+
+const PROBE: [u8; 8] = [0x5A, 0x00, 0xFF, 0x13, 0x80, 0x7F, 0x01, 0xC3];
+
+pub struct Frame {
+    at: usize,
+    #[allow(dead_code)]
+    total: usize,
+    hdr_len: usize,
+}
+
+pub struct DirState<E: Clone, D: Clone> {
+    plain: Vec<u8>,
+    ciph: Vec<u8>,
+    enc: Option<E>,
+    ref_enc: Option<E>,
+    dec: Option<D>,
+    ref_dec: Option<D>,
+    raw_enc: fn(&mut E, &mut [u8]),
+    raw_dec: fn(&mut D, &mut [u8]),
+    msgs: Vec<Box<dyn Ops<E, D>>>,
+    frames: Vec<Frame>,
+    rd: usize,
+    rpos: usize,
+}
+
+#[derive(Default)]
+pub struct WObs {
+    pub fail: Option<(String, String)>, // (verdict kind, signature): panic | io
+    pub at: usize,
+    pub total: usize,
+    pub hdr: Vec<u8>,
+    pub body_ok: bool,
+    pub declared: Option<Result<u64, String>>,
+    pub enc_fail: Option<(String, String)>,
+    pub enc_total: usize,
+    pub differs_at: Vec<usize>,
+    pub cipher_hdr_ok: bool,
+    pub enc_in_step: bool,
+    pub body_len: usize,
+}
+
+#[derive(Default)]
+pub struct RObs {
+    pub fail: Option<String>, // panic signature
+    pub consumed: usize,
+    pub end: usize,
+    pub got: Option<Got>,
+    pub dec_in_step: bool,
+    pub name: &'static str,
+}
+
+impl<E: Clone, D: Clone> DirState<E, D> {
+    fn new(halves: Option<(E, D)>, raw_enc: fn(&mut E, &mut [u8]), raw_dec: fn(&mut D, &mut [u8])) -> Self {
+        let (enc, dec) = match halves {
+            Some((e, d)) => (Some(e), Some(d)),
+            None => (None, None),
+        };
+        DirState {
+            plain: vec![],
+            ciph: vec![],
+            ref_enc: enc.clone(),
+            ref_dec: dec.clone(),
+            enc,
+            dec,
+            raw_enc,
+            raw_dec,
+            msgs: vec![],
+            frames: vec![],
+            rd: 0,
+            rpos: 0,
+        }
+    }
+
+    /// `hdr_hint`: the header the model expects (replay mode). The reference half encrypts it, so
+    /// the encrypted writer is judged even when the plain writer fails. Without a hint (drive mode)
+    /// the observed plain header is used.
+    fn write(&mut self, m: Box<dyn Ops<E, D>>, fl: Fl, via_enum: bool, hdr_hint: Option<&[u8]>) -> WObs {
+        let mut o = WObs { at: self.plain.len(), ..Default::default() };
+        let at = o.at;
+        // plain
+        let plain = &mut self.plain;
+        match guarded(|| m.write(fl, via_enum, plain, None)) {
+            Err(p) => {
+                self.plain.truncate(at);
+                o.fail = Some(("panic".into(), p));
+            }
+            Ok(Err(e)) => {
+                self.plain.truncate(at);
+                o.fail = Some(("io".into(), e));
+            }
+            Ok(Ok(())) => {}
+        }
+        o.declared = Some(guarded(|| m.declared()));
+        let blen = m.body().len();
+        o.body_len = blen;
+        let mut hdr_len = 0;
+        if o.fail.is_none() {
+            o.total = self.plain.len() - at;
+            hdr_len = o.total.saturating_sub(blen);
+            o.hdr = self.plain[at..at + hdr_len].to_vec();
+            o.body_ok = o.total >= blen && &self.plain[at + hdr_len..] == m.body();
+        }
+        // encrypted, in parallel
+        if let Some(enc) = self.enc.as_mut() {
+            let cat = self.ciph.len();
+            let ciph = &mut self.ciph;
+            match guarded(|| m.write(fl, via_enum, ciph, Some(enc))) {
+                Err(p) => o.enc_fail = Some(("panic".into(), p)),
+                Ok(Err(e)) => o.enc_fail = Some(("io".into(), e)),
+                Ok(Ok(())) => {}
+            }
+            if o.enc_fail.is_some() {
+                self.ciph.truncate(cat);
+                return o;
+            }
+            o.enc_total = self.ciph.len() - cat;
+            let mut h = match hdr_hint {
+                Some(h) => h.to_vec(),
+                None => o.hdr.clone(),
+            };
+            if o.fail.is_none() {
+                let n = o.total.min(o.enc_total);
+                o.differs_at = (0..n).filter(|i| self.ciph[cat + i] != self.plain[at + i]).collect();
+            } else {
+                // no plain frame to compare with: compare the body part with the message body
+                let hl = h.len();
+                o.body_ok = o.enc_total == hl + blen && &self.ciph[cat + hl..] == m.body();
+            }
+            // reference half: the plain header through the raw cipher
+            let r = self.ref_enc.as_mut().unwrap();
+            (self.raw_enc)(r, &mut h);
+            o.cipher_hdr_ok = o.enc_total >= h.len() && self.ciph[cat..cat + h.len()] == h[..];
+            let (mut a, mut b) = (PROBE, PROBE);
+            (self.raw_enc)(&mut self.enc.clone().unwrap(), &mut a);
+            (self.raw_enc)(&mut self.ref_enc.clone().unwrap(), &mut b);
+            o.enc_in_step = a == b;
+        }
+        if o.fail.is_some() {
+            return o;
+        }
+        self.frames.push(Frame { at, total: o.total, hdr_len });
+        self.msgs.push(m);
+        o
+    }
+
+    fn read(&mut self, fl: Fl, entry: Entry) -> Option<RObs> {
+        if self.rd >= self.msgs.len() {
+            return None;
+        }
+        let m = &self.msgs[self.rd];
+        let crypt = self.dec.is_some();
+        let buf: &[u8] = if crypt { &self.ciph } else { &self.plain };
+        let mut o = RObs { name: m.name(), ..Default::default() };
+        let mut r: &[u8] = &buf[self.rpos.min(buf.len())..];
+        let before = r.len();
+        let dec = self.dec.as_mut();
+        let res = {
+            let rr = &mut r;
+            guarded(move || m.read(fl, entry, rr, dec))
+        };
+        o.consumed = before - r.len();
+        self.rpos += o.consumed;
+        o.end = self.rpos;
+        match res {
+            Err(p) => o.fail = Some(p),
+            Ok(g) => o.got = Some(g),
+        }
+        if crypt {
+            // the reference half follows the WRITER's framing: it decrypts the header bytes of this frame
+            let f = &self.frames[self.rd];
+            let mut h = self.ciph[f.at..f.at + f.hdr_len].to_vec();
+            (self.raw_dec)(self.ref_dec.as_mut().unwrap(), &mut h);
+            let (mut a, mut b) = (PROBE, PROBE);
+            (self.raw_dec)(&mut self.dec.clone().unwrap(), &mut a);
+            (self.raw_dec)(&mut self.ref_dec.clone().unwrap(), &mut b);
+            o.dec_in_step = a == b;
+        }
+        self.rd += 1;
+        Some(o)
+    }
+}
+
+fn parse_key(hexs: &str) -> Result<[u8; 40], String> {
+    if hexs.len() != 80 {
+        return Err("session key must be 40 bytes of hex".into());
+    }
+    let mut k = [0u8; 40];
+    for i in 0..40 {
+        k[i] = u8::from_str_radix(&hexs[2 * i..2 * i + 2], 16).map_err(|e| e.to_string())?;
+    }
+    Ok(k)
+}
+
+fn sig(s: &str) -> String {
+    s.chars().take(240).collect()
+}
+
+// ------------------------------------------------------------------------------------------------
+// replay: compare with the model record
+
+struct Run<'a> {
+    rec: &'a Value,
+    fl: Fl,
+    key_idx: i64,
+}
+
+fn verdict(run: &Run, op: &str, step: usize, dir: &str, name: &str, body: u64, kind: &str, expected: Value, observed: Value, s: &str) -> Value {
+    json!({"exp": run.rec["exp"], "crypt": run.rec["crypt"], "entry": run.rec["entry"], "mode": run.rec["mode"],
+           "flavour": run.fl.name(), "key": run.key_idx, "op": op, "step": step, "dir": dir, "name": name, "body": body,
+           "verdict": kind, "expected": expected, "observed": observed, "sig": sig(s)})
+}
+
+fn check_write(run: &Run, j: usize, f: &Value, o: &WObs, crypt: bool) -> Vec<Value> {
+    let dir = f["dir"].as_str().unwrap_or("");
+    let name = f["name"].as_str().unwrap_or("");
+    let body = f["body"].as_u64().unwrap_or(0);
+    let hdr: Vec<u8> = crate::util::bytes_of(&f["hdr"]);
+    let total = f["total"].as_u64().unwrap_or(0) as usize;
+    let mut out = vec![];
+    let plain = (|| {
+        let v = |kind: &str, e: Value, ob: Value, s: &str| Some(verdict(run, "write", j, dir, name, body, kind, e, ob, s));
+        if let Some((k, s)) = &o.fail {
+            return v(k, json!("write completes"), json!(k), s);
+        }
+        if o.at as u64 != f["at"].as_u64().unwrap_or(0) {
+            return v("offset", f["at"].clone(), json!(o.at), "");
+        }
+        if o.total != total {
+            return v("total", json!(total), json!(o.total), &format!("header {}", crate::util::hex(&o.hdr)));
+        }
+        if o.hdr != hdr {
+            return v("header", json!(crate::util::hex(&hdr)), json!(crate::util::hex(&o.hdr)), "");
+        }
+        if !o.body_ok {
+            return v("body", json!("body bytes follow the header unchanged"), json!("different"), "");
+        }
+        match &o.declared {
+            Some(Ok(d)) if *d as usize == total => None,
+            Some(Ok(d)) => v("declared", json!(total), json!(d), ""),
+            Some(Err(p)) => v("panic", json!(total), json!("declared size panics"), p),
+            None => None,
+        }
+    })();
+    out.extend(plain);
+    if crypt {
+        let enc = (|| {
+            let ve = |kind: &str, e: Value, ob: Value, s: &str| Some(verdict(run, "write_encrypted", j, dir, name, body, kind, e, ob, s));
+            if let Some((k, s)) = &o.enc_fail {
+                return ve(k, json!("write completes"), json!(k), s);
+            }
+            if o.enc_total != total {
+                return ve("total", json!(total), json!(o.enc_total), "");
+            }
+            let enc_len = f["encLen"].as_u64().unwrap_or(0) as usize;
+            if let Some(bad) = o.differs_at.iter().find(|i| **i >= enc_len) {
+                return ve("differs", json!(format!("only offsets < {enc_len}")), json!(bad), "ciphertext differs from plaintext outside the header");
+            }
+            if !o.cipher_hdr_ok {
+                return ve("cipher_header", json!("keystream applied to the model header at the model position"), json!("different bytes"), "");
+            }
+            if !o.body_ok {
+                return ve("body", json!("body bytes follow the header unchanged"), json!("different"), "");
+            }
+            if !o.enc_in_step {
+                return ve("enc_state", json!(f["encAt"].as_u64().unwrap_or(0) as usize + enc_len), json!("encrypter half not at that keystream position"), "");
+            }
+            None
+        })();
+        out.extend(enc);
+    }
+    out
+}
+
+fn check_read(run: &Run, i: usize, dir: &str, rd: &Value, soft: bool, o: &RObs, crypt: bool, entry: Entry) -> Option<Value> {
+    let name = rd["name"].as_str().unwrap_or("");
+    let body = rd["body"].as_u64().unwrap_or(0);
+    let op = if crypt { "read_encrypted" } else { "read" };
+    let v = |kind: &str, e: Value, ob: Value, s: &str| {
+        let mut x = verdict(run, op, i, dir, name, body, kind, e, ob, s);
+        x["reader"] = json!(entry.name());
+        Some(x)
+    };
+    if let Some(p) = &o.fail {
+        return v("panic", json!("read completes"), json!("panic"), p);
+    }
+    let end = rd["end"].as_u64().unwrap_or(0) as usize;
+    if o.end != end {
+        return v("consumed", json!(end), json!(o.end), &format!("{:?}", o.got));
+    }
+    match (entry, o.got.as_ref().unwrap()) {
+        (Entry::Opcode | Entry::Expect, Got::Same) => {}
+        (Entry::Opcode | Entry::Expect, Got::Err(e)) if soft && e.contains("InvalidSize") => {}
+        (Entry::ExpectOther, Got::OpcodeErr(op)) if u64::from(*op) == rd["opcode"].as_u64().unwrap_or(u64::MAX) => {}
+        (_, g) => return v("message", json!(name), json!(format!("{g:?}").chars().take(200).collect::<String>()), &format!("{g:?}")),
+    }
+    if crypt && !o.dec_in_step {
+        return v("dec_state", rd["decEnd"].clone(), json!("decrypter half not at that keystream position"), "");
+    }
+    None
+}
+
+fn run_once<X: Exp>(run: &Run, key: Option<[u8; 40]>, entry: Entry, out: &mut Vec<Value>) -> Result<(), String> {
+    let rec = run.rec;
+    let crypt = key.is_some();
+    let (hc, hs) = match key {
+        Some(k) => {
+            let (ce, cd, se, sd) = X::halves(k)?;
+            (Some((ce, sd)), Some((se, cd)))
+        }
+        None => (None, None),
+    };
+    let mut c: DirState<X::CE, X::SD> = DirState::new(hc, X::raw_ce, X::raw_sd);
+    let mut s: DirState<X::SE, X::CD> = DirState::new(hs, X::raw_se, X::raw_cd);
+    let via_enum = entry == Entry::Opcode;
+    let msgs = rec["msgs"].as_array().ok_or("record without msgs")?;
+    let mut soft_c = vec![];
+    let mut soft_s = vec![];
+    for (j, f) in msgs.iter().enumerate() {
+        let name = f["name"].as_str().unwrap_or("");
+        let body = f["body"].as_u64().unwrap_or(0) as usize;
+        let hint = crate::util::bytes_of(&f["hdr"]);
+        let o = if f["dir"] == "client" {
+            soft_c.push(f["soft"] == true);
+            c.write(X::client_msg(name, body).ok_or(format!("harness has no message {name} with body {body}"))?, run.fl, via_enum, Some(&hint))
+        } else {
+            soft_s.push(f["soft"] == true);
+            s.write(X::server_msg(name, body).ok_or(format!("harness has no message {name} with body {body}"))?, run.fl, via_enum, Some(&hint))
+        };
+        let vs = check_write(run, j + 1, f, &o, crypt);
+        if !vs.is_empty() {
+            out.extend(vs);
+            return Ok(());
+        }
+    }
+    for dir in ["client", "server"] {
+        let reads = rec["reads"][dir].as_array().cloned().unwrap_or_default();
+        for (i, rd) in reads.iter().enumerate() {
+            let (o, soft) = if dir == "client" { (c.read(run.fl, entry), soft_c.get(i)) } else { (s.read(run.fl, entry), soft_s.get(i)) };
+            let o = o.ok_or("model reads more frames than it wrote")?;
+            if let Some(v) = check_read(run, i + 1, dir, rd, *soft.unwrap_or(&false), &o, crypt, entry) {
+                out.push(v);
+                break; // later reads of a misaligned stream carry no information
+            }
+        }
+    }
+    if out.is_empty() {
+        let fin = &rec["final"];
+        for (dir, w, r) in [("client", c.plain.len(), c.rpos), ("server", s.plain.len(), s.rpos)] {
+            if fin["wpos"][dir].as_u64() != Some(w as u64) || fin["rpos"][dir].as_u64() != Some(r as u64) {
+                out.push(verdict(run, "final", 0, dir, "", 0, "positions", json!([fin["wpos"][dir], fin["rpos"][dir]]), json!([w, r]), ""));
+            }
+        }
+    }
+    Ok(())
+}
+
+/// `rotate`: histories of more than one frame run under ONE flavour and `per` keys, chosen by the
+/// record number (quick tier); single frames and the thorough tier run all of them.
+fn judge<X: Exp>(rec: &Value, n: u64, keys: &[[u8; 40]], flavours: &[Fl], rotate: (Option<usize>, bool)) -> Result<Vec<Value>, String> {
+    let crypt = rec["crypt"] == true;
+    let long = rec["msgs"].as_array().map(|a| a.len()).unwrap_or(0) > 1;
+    let (fl_sel, key_sel): (Vec<Fl>, Vec<[u8; 40]>) = match rotate.0 {
+        Some(per) if long && !flavours.is_empty() => (
+            if rotate.1 { flavours.to_vec() } else { vec![flavours[(n as usize) % flavours.len()]] },
+            (0..per.min(keys.len())).map(|i| keys[(n as usize * per + i) % keys.len()]).collect(),
+        ),
+        _ => (flavours.to_vec(), keys.to_vec()),
+    };
+    let (flavours, keys) = (&fl_sel[..], &key_sel[..]);
+    let entries: Vec<Entry> = match rec["entry"].as_str().unwrap_or("") {
+        "all" => vec![Entry::Opcode, Entry::Expect, Entry::ExpectOther],
+        e => vec![Entry::parse(e).ok_or(format!("unknown entry {e}"))?],
+    };
+    let mut out: Vec<Value> = vec![];
+    for fl in flavours {
+        for entry in &entries {
+            if crypt {
+                for (k, key) in keys.iter().enumerate() {
+                    let run = Run { rec, fl: *fl, key_idx: k as i64 };
+                    let mut o = vec![];
+                    run_once::<X>(&run, Some(*key), *entry, &mut o)?;
+                    out.extend(o);
+                }
+            } else {
+                let run = Run { rec, fl: *fl, key_idx: -1 };
+                let mut o = vec![];
+                run_once::<X>(&run, None, *entry, &mut o)?;
+                out.extend(o);
+            }
+        }
+    }
+    // identical disagreements (same op / step / verdict) under several flavours or keys: keep all
+    // flavours but one key
+    let mut seen = std::collections::HashSet::new();
+    out.retain(|v| seen.insert(format!("{}|{}|{}|{}|{}", v["flavour"], v["op"], v["step"], v["verdict"], v["reader"])));
+    Ok(out)
+}
+
+/// --rotate N: histories of 2+ frames use N of the keys and ONE flavour, chosen by record number;
+/// --keys-per N: the same for the keys only (all flavours).
+fn opts(args: &[String]) -> Result<(Vec<[u8; 40]>, Vec<Fl>, (Option<usize>, bool)), String> {
+    let mut rotate = (None, false);
+    let mut keys = vec![];
+    let mut fls = vec![Fl::Sync, Fl::Tokio, Fl::Astd];
+    let mut i = 0;
+    while i < args.len() {
+        match args[i].as_str() {
+            "--keys" => {
+                i += 1;
+                for k in args.get(i).map(|s| s.as_str()).unwrap_or("").split(',').filter(|s| !s.is_empty()) {
+                    keys.push(parse_key(k)?);
+                }
+            }
+            "--flavours" => {
+                i += 1;
+                fls = args.get(i).map(|s| s.as_str()).unwrap_or("").split(',').filter_map(Fl::parse).collect();
+            }
+            "--rotate" | "--keys-per" => {
+                let all_flavours = args[i] == "--keys-per";
+                i += 1;
+                rotate = (Some(args.get(i).and_then(|s| s.parse().ok()).ok_or("--rotate needs a number")?), all_flavours);
+            }
+            other => return Err(format!("unknown argument {other}")),
+        }
+        i += 1;
+    }
+    Ok((keys, fls, rotate))
+}
+
+fn replay(args: &[String]) -> i32 {
+    let (keys, fls, rotate) = match opts(args) {
+        Ok(x) => x,
+        Err(e) => {
+            eprintln!("frames replay: {e}");
+            return 2;
+        }
+    };
+    let stdin = std::io::stdin();
+    let stdout = std::io::stdout();
+    let mut w = std::io::BufWriter::new(stdout.lock());
+    let (mut n, mut ok) = (0u64, 0u64);
+    for line in stdin.lock().lines() {
+        let Ok(line) = line else { break };
+        if line.trim().is_empty() {
+            continue;
+        }
+        let rec: Value = match serde_json::from_str(&line) {
+            Ok(v) => v,
+            Err(e) => {
+                eprintln!("bad record: {e}");
+                return 2;
+            }
+        };
+        if rec["kind"] != "frames" {
+            continue;
+        }
+        n += 1;
+        writeln!(w, "@{n}").unwrap();
+        w.flush().unwrap();
+        if rec["crypt"] == true && keys.is_empty() {
+            eprintln!("frames replay: encrypted record but no --keys");
+            return 2;
+        }
+        let res = match rec["exp"].as_str().unwrap_or("") {
+            "vanilla" => judge::<Vanilla>(&rec, n, &keys, &fls, rotate),
+            "tbc" => judge::<Tbc>(&rec, n, &keys, &fls, rotate),
+            "wrath" => judge::<Wrath>(&rec, n, &keys, &fls, rotate),
+            e => Err(format!("unknown expansion {e}")),
+        };
+        match res {
+            Err(e) => {
+                eprintln!("frames replay: record {n}: {e}");
+                return 2;
+            }
+            Ok(vs) => {
+                if vs.is_empty() {
+                    ok += 1;
+                }
+                for mut v in vs {
+                    v["rec"] = json!(n);
+                    v["id"] = rec["id"].clone();
+                    writeln!(w, "{v}").unwrap();
+                }
+            }
+        }
+    }
+    writeln!(w, "{}", json!({"summary": {"records": n, "ok": ok}})).unwrap();
+    0
+}
+
+// ------------------------------------------------------------------------------------------------
+// drive: execute requests, log observations (implementation -> specification)
+
+fn drive_one<X: Exp>(req: &Value) -> Result<Vec<Value>, String> {
+    let crypt = req["crypt"] == true;
+    let entry = Entry::parse(req["entry"].as_str().unwrap_or("")).ok_or("bad entry")?;
+    let fl = Fl::parse(req["flavour"].as_str().unwrap_or("")).ok_or("bad flavour")?;
+    let (hc, hs) = if crypt {
+        let (ce, cd, se, sd) = X::halves(parse_key(req["key"].as_str().unwrap_or(""))?)?;
+        (Some((ce, sd)), Some((se, cd)))
+    } else {
+        (None, None)
+    };
+    let mut c: DirState<X::CE, X::SD> = DirState::new(hc, X::raw_ce, X::raw_sd);
+    let mut s: DirState<X::SE, X::CD> = DirState::new(hs, X::raw_se, X::raw_cd);
+    let via_enum = entry == Entry::Opcode;
+    let mut ev = vec![];
+    for op in req["ops"].as_array().ok_or("no ops")? {
+        let dir = op["dir"].as_str().unwrap_or("");
+        if op["op"] == "w" {
+            let name = op["name"].as_str().unwrap_or("");
+            let body = op["body"].as_u64().unwrap_or(0) as usize;
+            let o = if dir == "client" {
+                c.write(X::client_msg(name, body).ok_or(format!("no message {name}/{body}"))?, fl, via_enum, None)
+            } else {
+                s.write(X::server_msg(name, body).ok_or(format!("no message {name}/{body}"))?, fl, via_enum, None)
+            };
+            let fail = o.fail.as_ref().map(|f| ("write", f)).or(o.enc_fail.as_ref().map(|f| ("write_encrypted", f)));
+            if let Some((wop, (k, sg))) = fail {
+                ev.push(json!({"ev": "wfail", "dir": dir, "name": name, "body": o.body_len, "param": body, "op": wop, "verdict": k, "sig": sig(sg)}));
+                break; // the stream is in an unspecified state after an aborted write
+            }
+            ev.push(json!({"ev": "wframe", "dir": dir, "name": name, "body": o.body_len, "hdr": o.hdr, "total": o.total,
+                           "bodyOk": o.body_ok, "declared": match &o.declared { Some(Ok(d)) => json!(d), _ => json!(-1) },
+                           "encTotal": if crypt { o.enc_total } else { o.total },
+                           "differsAt": o.differs_at, "cipherHdrOk": !crypt || o.cipher_hdr_ok, "encInStep": !crypt || o.enc_in_step}));
+        } else {
+            let o = if dir == "client" { c.read(fl, entry) } else { s.read(fl, entry) };
+            let Some(o) = o else { return Err("request reads more than it wrote".into()) };
+            if let Some(p) = &o.fail {
+                ev.push(json!({"ev": "rfail", "dir": dir, "name": o.name, "op": if crypt { "read_encrypted" } else { "read" }, "verdict": "panic", "sig": sig(p)}));
+                break;
+            }
+            let (res, opc, sg) = match o.got.as_ref().unwrap() {
+                Got::Same => ("same", 0, String::new()),
+                Got::Differs(d) => ("differs", 0, d.clone()),
+                Got::OpcodeErr(x) => ("opcode_err", *x, String::new()),
+                Got::Err(e) => (if e.contains("InvalidSize") { "invalid_size" } else { "err" }, 0, e.clone()),
+            };
+            ev.push(json!({"ev": "rframe", "dir": dir, "name": o.name, "consumed": o.consumed, "end": o.end, "res": res,
+                           "opcode": opc, "sig": sig(&sg), "decInStep": !crypt || o.dec_in_step}));
+        }
+    }
+    Ok(ev)
+}
+
+fn drive() -> i32 {
+    let stdin = std::io::stdin();
+    let stdout = std::io::stdout();
+    let mut w = std::io::BufWriter::new(stdout.lock());
+    let mut n = 0u64;
+    for line in stdin.lock().lines() {
+        let Ok(line) = line else { break };
+        if line.trim().is_empty() {
+            continue;
+        }
+        let req: Value = match serde_json::from_str(&line) {
+            Ok(v) => v,
+            Err(e) => {
+                eprintln!("bad request: {e}");
+                return 2;
+            }
+        };
+        n += 1;
+        let res = match req["exp"].as_str().unwrap_or("") {
+            "vanilla" => drive_one::<Vanilla>(&req),
+            "tbc" => drive_one::<Tbc>(&req),
+            "wrath" => drive_one::<Wrath>(&req),
+            e => Err(format!("unknown expansion {e}")),
+        };
+        match res {
+            Err(e) => {
+                eprintln!("frames drive: request {n}: {e}");
+                return 2;
+            }
+            Ok(ev) => writeln!(w, "{}", json!({"req": n, "id": req["id"], "events": ev})).unwrap(),
+        }
+    }
+    0
+}
+
+pub fn run(args: &[String]) -> i32 {
+    install_quiet_panic_hook();
+    match args.first().map(|s| s.as_str()) {
+        Some("replay") => replay(&args[1..]),
+        Some("drive") => drive(),
+        _ => {
+            eprintln!("usage: vh frames replay [--keys hex,..] [--flavours sync,tokio,astd] | vh frames drive");
+            2
+        }
+    }
 }
